@@ -35,10 +35,12 @@ import (
 	"net/url"
 	"os"
 	"path/filepath"
+	"reflect"
 	"strconv"
 	"strings"
 	"sync"
 	"time"
+	"unsafe"
 
 	"github.com/golang-jwt/jwt/v4"
 	"github.com/golang-jwt/jwt/v4/request"
@@ -155,6 +157,39 @@ type JReq struct {
 	SignAlg string `json:"signalg"` // HS256 | HS384 | HS512 | none | garbage
 	Mut     []Mut  `json:"mut"`
 	Auth2   string `json:"auth2"` // a second Authorization header: "" | after | before (garbage value after / before the real one)
+	// the rest of the request, which the gate must not look at: HTTP method ("" = GET) and other header fields
+	Method string      `json:"method"`
+	XH     [][2]string `json:"xh"`
+}
+
+// applyXH adds the other header fields of a case to the request. A name "raw:<name>" is stored under exactly
+// that (non-canonical) map key; "Host" sets r.Host; everything else goes through Header.Add.
+func applyXH(r *http.Request, xh [][2]string) {
+	for _, nv := range xh {
+		switch {
+		case strings.HasPrefix(nv[0], "raw:"):
+			k := nv[0][4:]
+			r.Header[k] = append(r.Header[k], nv[1])
+		case nv[0] == "Host":
+			r.Host = nv[1]
+		default:
+			r.Header.Add(nv[0], nv[1])
+		}
+	}
+}
+
+// newReq: httptest.NewRequest for ANY method token (NewRequest parses the target of a CONNECT request as an
+// authority, so the request is made with another method and relabelled)
+func newReq(method, target string, body io.Reader) *http.Request {
+	if method == "" {
+		method = http.MethodGet
+	}
+	if method != http.MethodConnect {
+		return httptest.NewRequest(method, target, body)
+	}
+	r := httptest.NewRequest(http.MethodPost, target, body)
+	r.Method = method
+	return r
 }
 
 type CSReq struct {
@@ -191,6 +226,7 @@ type CSReq struct {
 	Flush    bool    `json:"flush"`    // the route handler calls Flush and tries Hijack
 	Edits    []FieldEdit `json:"edits"` // encoding-level edits of the presented signature / secret / fingerprint text
 	SignTsPlain bool  `json:"signtsplain"` // the client signed the canonical decimal timestamp, the secret carries the tsfmt spelling
+	XH       [][2]string `json:"xh"`       // other header fields (see applyXH): nothing the gates may look at
 }
 
 type Case struct {
@@ -232,6 +268,9 @@ type Case struct {
 	Outer   bool     `json:"outer"`    // srv: rest.WithChain with a recording middleware in front of the gates
 	Big     *BigCase `json:"big"` // big: payload sizes for the cryption round trip
 	Natives bool     `json:"natives"` // srv: also switch on the log / trace / prometheus / metrics middlewares in front of the gates
+	// eng/srv: "" | all (rest.WithCors()) | origin (rest.WithCors("https://app.example")) | headers (rest.WithCorsHeaders("X-Token")):
+	// the requests then go through the server's CORS router (which answers OPTIONS itself)
+	Cors string `json:"cors"`
 }
 
 // BigCase: the payloads are described as (seed, length) and expanded here, so that the case text stays small.
@@ -359,6 +398,7 @@ type SrvObs struct {
 	BindOk bool      `json:"bindok"`
 	EngErr string    `json:"engerr,omitempty"`
 	Reqs   []SReqObs `json:"reqs"`
+	CorsOn bool      `json:"corson"` // the requests went through the server's CORS router
 }
 
 type CSView struct {
@@ -414,6 +454,7 @@ type CSObs struct {
 	HdrOut    bool    `json:"hdrout"`   // the response header set by the route handler reached the client
 	CodecX    string  `json:"codecx"`   // "" = the other exported codec entry points behave like EcbEncrypt/EcbDecrypt; else what differed
 	MwRan     bool    `json:"mwran"`
+	CorsOn    bool    `json:"corson"` // the request went through the server's CORS router
 }
 
 type HObs struct {
@@ -774,7 +815,8 @@ func runJwt(c Case) []JObs {
 		for k := range o.View.Claims {
 			keys = append(keys, k) // never reset: the claim names of EARLIER tokens are looked for as well
 		}
-		r := httptest.NewRequest(http.MethodGet, "http://localhost/private", nil)
+		r := newReq(q.Method, "http://localhost/private", nil)
+		applyXH(r, q.XH)
 		setAuth(r, vals)
 		rec, p := serve(h, r)
 		o.Status = rec.Code
@@ -804,7 +846,8 @@ func runTp(c Case) []TpObs {
 			first = vals[0]
 		}
 		o := TpObs{View: classify(first, present, cl.Secret, cl.Prev)}
-		r := httptest.NewRequest(http.MethodGet, "http://localhost/private", nil)
+		r := newReq(cl.Req.Method, "http://localhost/private", nil)
+		applyXH(r, cl.Req.XH)
 		setAuth(r, vals)
 		func() {
 			defer func() {
@@ -1286,7 +1329,8 @@ func (b built) requestFor(q CSReq) *http.Request {
 			body = hideLen{body}
 		}
 	}
-	r := httptest.NewRequest(q.Method, target, body)
+	r := newReq(q.Method, target, body)
+	applyXH(r, q.XH)
 	if b.view.ContentLn > 0 {
 		r.ContentLength = b.view.ContentLn
 	}
@@ -1297,6 +1341,71 @@ func (b built) requestFor(q CSReq) *http.Request {
 		r.Header.Set("X-Request-Uri", *q.Xuri)
 	}
 	return r
+}
+
+// ---- rest.WithCors: the server wraps its router (server.router = corsRouter{router}); routes are still bound onto
+// the router we passed in, but requests must enter through the wrapper. The public API has no accessor, so the
+// unexported field is read (not written) by reflection. Should the field not be found any more (a refactoring), the
+// CORS option is simply not used in this run: corsUsable() is probed once on a throw-away server.
+
+func serverRouter(srv *rest.Server) (h http.Handler) {
+	defer func() {
+		if recover() != nil {
+			h = nil
+		}
+	}()
+	v := reflect.ValueOf(srv).Elem()
+	for i := 0; i < v.NumField(); i++ {
+		f := v.Field(i)
+		if f.Kind() != reflect.Interface || f.IsNil() {
+			continue
+		}
+		x := reflect.NewAt(f.Type(), unsafe.Pointer(f.UnsafeAddr())).Elem().Interface()
+		if rt, ok := x.(httpx.Router); ok {
+			return rt
+		}
+	}
+	return nil
+}
+
+func corsOption(kind string) rest.RunOption {
+	switch kind {
+	case "origin":
+		return rest.WithCors("https://app.example")
+	case "headers":
+		return rest.WithCorsHeaders("X-Token")
+	}
+	return rest.WithCors()
+}
+
+var corsProbe struct {
+	once sync.Once
+	ok   bool
+}
+
+func corsUsable() bool {
+	corsProbe.once.Do(func() {
+		defer func() { recover() }()
+		var rc rest.RestConf
+		if conf.LoadFromJsonBytes([]byte(`{"Name":"c18probe","Host":"127.0.0.1","Port":70000,"CpuThreshold":0,`+
+			`"Middlewares":{"Shedding":false,"Log":false,"Prometheus":false,"Trace":false,"Metrics":false}}`), &rc) != nil {
+			return
+		}
+		rt := router.NewRouter()
+		srv, err := rest.NewServer(rc, rest.WithRouter(rt), rest.WithCors())
+		if err != nil {
+			return
+		}
+		h := serverRouter(srv)
+		if h == nil || h == http.Handler(rt) {
+			return
+		}
+		// the wrapper answers an OPTIONS request to nowhere by itself and hands everything else to our router
+		rec := httptest.NewRecorder()
+		h.ServeHTTP(rec, httptest.NewRequest(http.MethodOptions, "http://localhost/nowhere", nil))
+		corsProbe.ok = rec.Code == http.StatusNoContent
+	})
+	return corsProbe.ok
 }
 
 // buildEngine registers the route groups on a real rest.Server with the public API and
@@ -1327,6 +1436,10 @@ func buildEngine(c Case, route http.HandlerFunc, o *CSObs) http.Handler {
 				next.ServeHTTP(w, r)
 			}
 		}))
+	}
+	useCors := c.Cors != "" && corsUsable()
+	if useCors {
+		opts = append(opts, corsOption(c.Cors))
 	}
 	srv, err := rest.NewServer(rc, opts...)
 	if err != nil {
@@ -1382,6 +1495,13 @@ func buildEngine(c Case, route http.HandlerFunc, o *CSObs) http.Handler {
 		}()
 		srv.Start()
 	}()
+	o.CorsOn = false
+	if useCors {
+		if h := serverRouter(srv); h != nil {
+			o.CorsOn = true
+			return h
+		}
+	}
 	return rt
 }
 
@@ -1469,6 +1589,10 @@ func buildSrv(c Case, cur *srvCur, so *SrvObs) http.Handler {
 				next.ServeHTTP(w, r)
 			}
 		}))
+	}
+	useCors := c.Cors != "" && corsUsable()
+	if useCors {
+		opts = append(opts, corsOption(c.Cors))
 	}
 	srv, err := rest.NewServer(rc, opts...)
 	if err != nil {
@@ -1583,6 +1707,12 @@ func buildSrv(c Case, cur *srvCur, so *SrvObs) http.Handler {
 		}()
 		srv.Start()
 	}()
+	if useCors {
+		if h := serverRouter(srv); h != nil {
+			so.CorsOn = true
+			return h
+		}
+	}
 	return rt
 }
 
